@@ -31,6 +31,7 @@ Definition S_CLOSED : Z := 14.        (* BadConnectionClosed (CloseSecureChannel
 Definition S_UNEXPECTED : Z := 15.    (* BadUnexpectedError *)
 Definition S_URL : Z := 16.           (* BadTcpEndpointUrlInvalid *)
 Definition S_VERSION : Z := 17.       (* BadProtocolVersionUnsupported *)
+Definition S_OTHER : Z := 19.         (* any other error: BadSequenceNumberInvalid for a replayed sequence number *)
 
 (* response classes queued for the writer *)
 Definition R_ACK : Z := 1.
@@ -82,7 +83,11 @@ Definition step_gen (guard : bool) (s : st) (f : frame) : st * Z * list Z :=
             if 1000 <=? pv0 then (mk_st ProcessMessages (hello_pv s) (issued s) (chan s) (last_chan s + 1), S_OK, [R_FAULT])
             else (mk_st ProcessMessages (hello_pv s) true (last_chan s + 1) (last_chan s + 1), S_OK, [R_OPN])
       | FMsg kind cid_ok =>
-          if negb (chan s =? 0) && negb cid_ok then (finish s, S_CHANNEL, [])
+          (* kind 2: a message that carries the sequence number of the chunk sent before it (0 if
+             there was none) -- a replay; refused whatever happened in between, a renewal included
+             (validate_chunks looks at the first sequence number before anything else) *)
+          if kind =? 2 then (finish s, S_OTHER, [])
+          else if negb (chan s =? 0) && negb cid_ok then (finish s, S_CHANNEL, [])
           else if guard && negb (issued s) then (finish s, S_CHANNEL, [])
           else (s, S_OK, [if kind =? 0 then R_SERVICE else R_FAULT])
       | FClo cid_ok =>
